@@ -141,19 +141,20 @@ func BuildShape(ctx context.Context, cfg *ldriver.Config, pool *world.Pool, ops 
 
 // Instance is one loader configuration over a shape (mirrors the instance record of FetchOps.tla).
 type Instance struct {
-	Name          string            `json:"name"`
-	Shape         int               `json:"shape"`
-	Replica       int               `json:"replica"`
-	Kind          string            `json:"Kind"` // fetch | mh | json | entry | entryhash
-	N             int               `json:"N"`    // the caller's limit (-1 none)
-	Length        int               `json:"Length"`
-	Conc          int               `json:"Conc"`
-	K             int               `json:"K"`
-	Start         []int             `json:"Start"`
-	Faults        map[string]string `json:"faults"` // model id (as string) -> kind
-	Excluded      []int             `json:"Excluded"`
-	Timeout       bool              `json:"Timeout"`
-	RealTimeoutMs int               `json:"RealTimeout"` // > 0: free-running with the loader's own Timeout option
+	Name           string            `json:"name"`
+	Shape          int               `json:"shape"`
+	Replica        int               `json:"replica"`
+	Kind           string            `json:"Kind"` // fetch | mh | json | entry | entryhash
+	N              int               `json:"N"`    // the caller's limit (-1 none)
+	Length         int               `json:"Length"`
+	Conc           int               `json:"Conc"`
+	K              int               `json:"K"`
+	Start          []int             `json:"Start"`
+	Faults         map[string]string `json:"faults"` // model id (as string) -> kind
+	Excluded       []int             `json:"Excluded"`
+	Timeout        bool              `json:"Timeout"`
+	RealTimeoutMs  int               `json:"RealTimeout"`    // > 0: free-running with the loader's own Timeout option
+	CustomManifest bool              `json:"CustomManifest"` // mh: load a manifest listing the heads in Start order (any writer may have produced it)
 }
 
 // Loaded is the projection of the log a loader returned.
@@ -184,7 +185,8 @@ type Final struct {
 	HasLog   bool              `json:"haslog"`
 	NSteps   int               `json:"nsteps"`
 	HErr     bool              `json:"herr"`
-	Sched    []json.RawMessage `json:"sched"` // the schedule the run was asked to follow (for replay)
+	Progress []int             `json:"progress"` // entries signalled on FetchOptions.ProgressChan, in order
+	Sched    []json.RawMessage `json:"sched"`    // the schedule the run was asked to follow (for replay)
 }
 
 // StepRec is a Step tagged with its run.
@@ -280,7 +282,8 @@ func RunInstance(ctx context.Context, s *Shape, pool *world.Pool, inst *Instance
 	}
 	rctx, cancel := context.WithCancel(ctx)
 	defer cancel()
-	fin := &Final{K: "final", Inst: inst.Name, Run: runNo, Result: []int{}, Reqs: []int{}, Res: []int{}}
+	fin := &Final{K: "final", Inst: inst.Name, Run: runNo, Result: []int{}, Reqs: []int{}, Res: []int{}, Progress: []int{}}
+	progress := make(chan iface.IPFSLogEntry, 8192)
 	var length *int
 	if inst.N >= 0 {
 		length = intPtr(inst.N)
@@ -302,18 +305,27 @@ func RunInstance(ctx context.Context, s *Shape, pool *world.Pool, inst *Instance
 		var err error
 		switch inst.Kind {
 		case "fetch":
-			res := entry.FetchAll(rctx, api, startCids, &entry.FetchOptions{Length: length, Concurrency: inst.Conc, ShouldExclude: shouldExclude, IO: s.Run.IO, Timeout: rt})
+			res := entry.FetchAll(rctx, api, startCids, &entry.FetchOptions{Length: length, Concurrency: inst.Conc, ShouldExclude: shouldExclude, IO: s.Run.IO, Timeout: rt, ProgressChan: progress})
 			for _, e := range res {
 				fin.Result = append(fin.Result, s.IDOf(e.GetHash()))
 			}
 		case "mh":
-			loaded, err = ipfslog.NewFromMultihash(rctx, api, identity, s.Mcids[inst.Replica-1],
+			mcid := s.Mcids[inst.Replica-1]
+			if inst.CustomManifest {
+				c, werr := s.Run.IO.Write(rctx, api, &iface.JSONLog{ID: rep.GetID(), Heads: startCids}, nil)
+				if werr != nil {
+					fin.HErr, fin.Err = true, "harness: cannot write manifest: "+werr.Error()
+					return
+				}
+				mcid = c
+			}
+			loaded, err = ipfslog.NewFromMultihash(rctx, api, identity, mcid,
 				&ipfslog.LogOptions{IO: s.Run.IO, SortFn: world.SortFn(s.Run.Cfg.Fn)},
-				&ipfslog.FetchOptions{Length: length, Concurrency: inst.Conc, ShouldExclude: shouldExclude, Timeout: rt})
+				&ipfslog.FetchOptions{Length: length, Concurrency: inst.Conc, ShouldExclude: shouldExclude, Timeout: rt, ProgressChan: progress})
 		case "json":
 			loaded, err = ipfslog.NewFromJSON(rctx, api, identity, &iface.JSONLog{ID: rep.GetID(), Heads: startCids},
 				&ipfslog.LogOptions{IO: s.Run.IO, SortFn: world.SortFn(s.Run.Cfg.Fn)},
-				&entry.FetchOptions{Length: length, Concurrency: inst.Conc})
+				&entry.FetchOptions{Length: length, Concurrency: inst.Conc, ProgressChan: progress})
 		case "entry":
 			var src []iface.IPFSLogEntry
 			for _, c := range startCids {
@@ -326,11 +338,11 @@ func RunInstance(ctx context.Context, s *Shape, pool *world.Pool, inst *Instance
 			}
 			loaded, err = ipfslog.NewFromEntry(rctx, api, identity, src,
 				&ipfslog.LogOptions{IO: s.Run.IO, SortFn: world.SortFn(s.Run.Cfg.Fn)},
-				&entry.FetchOptions{Length: length, Concurrency: inst.Conc})
+				&entry.FetchOptions{Length: length, Concurrency: inst.Conc, ProgressChan: progress})
 		case "entryhash":
 			loaded, err = ipfslog.NewFromEntryHash(rctx, api, identity, startCids[0],
 				&ipfslog.LogOptions{ID: rep.GetID(), IO: s.Run.IO, SortFn: world.SortFn(s.Run.Cfg.Fn)},
-				&ipfslog.FetchOptions{Length: length, Concurrency: inst.Conc, ShouldExclude: shouldExclude})
+				&ipfslog.FetchOptions{Length: length, Concurrency: inst.Conc, ShouldExclude: shouldExclude, ProgressChan: progress})
 		default:
 			fin.HErr, fin.Err = true, "harness: unknown loader kind "+inst.Kind
 		}
@@ -351,6 +363,15 @@ func RunInstance(ctx context.Context, s *Shape, pool *world.Pool, inst *Instance
 	}
 	fin.Hung = hung
 	fin.Returned = !hung
+drain:
+	for {
+		select {
+		case e := <-progress:
+			fin.Progress = append(fin.Progress, s.IDOf(e.GetHash()))
+		default:
+			break drain
+		}
+	}
 	fin.TimedOut = timedOut
 	fin.Followed = fr.Followed
 	fin.Reqs = append(fin.Reqs, fr.Requests...)
